@@ -108,7 +108,7 @@ def run(ctx):
         dist[c] = dist.get(c, 0) + 1
     ctx.coverage.update({
         'evaluations': len(impl),
-        'distinct_nontrivial': len(set(lines[i].split(' ', 2)[2] for i in range(len(lines)) if res[i][1] in ('Lt', 'Gt', 'Eq'))),
+        'distinct_nontrivial': len(set(lines[i].split(' ', 2)[2] for i in range(min(len(lines), len(res))) if res[i][1] in ('Lt', 'Gt', 'Eq'))),
         'rule': 'pairs (each in both orders) and triples of routes drawn from a lattice of 2-10 values per decision field; '
                 'two thirds of the pairs differ in 1-3 fields only; ineligible routes kept for try_new; both strategies; '
                 'non-trivial = both routes eligible; distinct = distinct (strategy, route pair)',
